@@ -432,7 +432,7 @@ def check_split(i, op, line, s, out):
         for f in F2N:
             k, sg = parity_sorted(tuple(c[j] for j in f))
             seen0.setdefault(k, []).append(sg)
-    count_ok0 = all(len(sg) <= 2 for sg in seen0.values())
+    count_ok0 = max(parents.values(), default=1) == 1 and all(len(sg) <= 2 for sg in seen0.values())
     orient_ok0 = count_ok0 and all(len(sg) < 2 or sg[0] != sg[1] for sg in seen0.values())
     for k, sg in seen.items():
         if len(sg) > 2 and count_ok0:
@@ -499,6 +499,8 @@ def check_split(i, op, line, s, out):
         tol = 0 if exact else Fraction(1, 10 ** 9) * max(1, max(abs(x) for x in np_))
         if any(abs(tot[k] - np_[k]) > tol for k in range(3)):
             bad('children of triangle %s do not add up to its area vector' % (t,))
+        if len({frozenset(c[:-1]) for _, c in ks}) != len(ks):
+            bad('triangle %s: a child occurs twice' % (t,))
         nm = sum(marks[edge_index[frozenset((t[a], t[(a + 1) % 3]))]] for a in range(3))
         if len(ks) != {0: 1, 1: 2, 2: 2, 3: 4}[nm]:
             bad('triangle %s with %d marked sides has %d children' % (t, nm, len(ks)))
@@ -513,6 +515,8 @@ def check_split(i, op, line, s, out):
             continue
         ks = ekids.get(key, [])
         mk = marks[edge_index[key]] if key in edge_index else 0
+        if len({c[:2] for c in ks}) != len(ks):
+            bad('edg %s: a child occurs twice' % (e,))
         if len(ks) != (2 if mk else 1):
             bad('edg %s (mark %d) has %d children' % (e, mk, len(ks)))
         vec = [Fraction(0)] * 3
